@@ -9,6 +9,7 @@ GROUP = "g19"
 PROP_FILE = "C19.v"
 KINDS = {  # shard prefix -> (jsonl file, label used in violation keys)
     "rcases": ("rcases.jsonl", "redact"),
+    "pcases": ("pcases.jsonl", "parse"),
     "fcases": ("fcases.jsonl", "describe"),
     "ecases": ("ecases.jsonl", "binary"),
 }
@@ -163,7 +164,9 @@ def run(ctx):
         "distinct_nontrivial": nontriv,
         "rule": "redact: pairs of values (userinfo / proxy URL / host-port-user / data: URI) that differ only in the secret (1..16 characters "
                 "over 92 printable ASCII characters incl. : @ %% / blank quote backslash; same and different lengths; no password; nil) through "
-                "bind.RedactUserinfo, bind.RedactURL, forwarder.RedactHostPortUser, bind.RedactBase64; describe: the real `forwarder run` flag "
+                "bind.RedactUserinfo, bind.RedactURL, forwarder.RedactHostPortUser, bind.RedactBase64; parse: pairs of ARGUMENT STRINGS "
+                "`user:password[@host:port]` (passwords with : @ %%, user names containing @ or the password, refused forms) through "
+                "forwarder.ParseUserinfo / ParseHostPortUser and then the redact function, against the model's parsers; describe: the real `forwarder run` flag "
                 "set parsed from arguments (random subset of 8 secret-bearing flags) and dumped by FlagsDescriber OneLine and Plain, twice; "
                 "binary: the real binary started twice per case with secrets s1 != s2 of equal length via flags / FORWARDER_* environment / "
                 "JSON config file, log level error|info|debug, log-http none|short-url|url|errors, text and json log format, with and "
